@@ -338,10 +338,26 @@ fn integers(d: &mut Draw) -> Outcome {
     pass("integers", true)
 }
 
+/// deserialize *into an existing value* (serde's second entry point, which containers use to recycle their slots)
+fn in_place<T: DeserializeOwned + Clone>(text: &str, start: &T) -> Result<T, serde_json::Error> {
+    let mut place = start.clone();
+    let mut de = serde_json::Deserializer::from_str(text);
+    serde::Deserialize::deserialize_in_place(&mut de, &mut place)?;
+    de.end()?;
+    Ok(place)
+}
+fn in_place_vec<T: DeserializeOwned + Clone>(text: &str, start: &T) -> Result<Vec<T>, serde_json::Error> {
+    let mut place = vec![start.clone(), start.clone()];
+    let mut de = serde_json::Deserializer::from_str(text);
+    serde::Deserialize::deserialize_in_place(&mut de, &mut place)?;
+    de.end()?;
+    Ok(place)
+}
+
 /// Decomposed: any field order accepted; a missing or unknown field is an error
 fn decomposed_fields<F: Flt, T>(d: &mut Draw) -> Outcome
 where
-    T: Shape<F> + Serialize + DeserializeOwned + PartialEq + Debug,
+    T: Shape<F> + Serialize + DeserializeOwned + PartialEq + Debug + Clone,
 {
     let n = T::N;
     let c: Vec<F> = (0..n).map(|_| comp::<F>(d)).collect();
@@ -413,6 +429,45 @@ where
         }
         d.configs += 1;
     }
+    // the same through deserialize_in_place, into a value that already holds other components (directly and as a
+    // recycled slot of a Vec): every order gives the same value, an omission or an unknown field is an error and never
+    // "whatever was there before"
+    {
+        let other = T::build(&(0..n).map(|_| comp::<F>(d)).collect::<Vec<F>>());
+        for p in perms.iter() {
+            let text = format!("{{{},{},{}}}", field(names[p[0]]), field(names[p[1]]), field(names[p[2]]));
+            match catches(|| in_place::<T>(&text, &other)) {
+                Ok(Ok(b)) => ensure!(value_bits(&serde_json::to_value(&b).unwrap()) == ref_bits, "in-place-changes-value", "{}: deserialize_in_place with field order {:?} gives a different value", T::NAME, p),
+                Ok(Err(e)) => return Outcome::Fail { sig: "in-place-rejected", msg: format!("{}: deserialize_in_place rejects field order {:?}: {}", T::NAME, p, e) },
+                Err(m) => return Outcome::Fail { sig: "in-place-panics", msg: format!("{}: deserialize_in_place panics: {}", T::NAME, m) },
+            }
+            match catches(|| in_place_vec::<T>(&format!("[{}]", text), &other)) {
+                Ok(Ok(b)) => ensure!(b.len() == 1 && value_bits(&serde_json::to_value(&b[0]).unwrap()) == ref_bits, "in-place-changes-value", "{}: Vec::deserialize_in_place with field order {:?} gives {:?}", T::NAME, p, b),
+                Ok(Err(e)) => return Outcome::Fail { sig: "in-place-rejected", msg: format!("{}: Vec::deserialize_in_place rejects field order {:?}: {}", T::NAME, p, e) },
+                Err(m) => return Outcome::Fail { sig: "in-place-panics", msg: format!("{}: Vec::deserialize_in_place panics: {}", T::NAME, m) },
+            }
+        }
+        for omit in 0..3 {
+            let kept: Vec<String> = (0..3).filter(|i| *i != omit).map(|i| field(names[i])).collect();
+            for text in [format!("{{{},{}}}", kept[0], kept[1]), format!("{{{},{}}}", kept[1], kept[0]), format!("{{{}}}", kept[0]), "{}".to_string()] {
+                match catches(|| in_place::<T>(&text, &other)) {
+                    Ok(Ok(b)) => return Outcome::Fail { sig: "in-place-omission-accepted", msg: format!("{}: deserialize_in_place of {} (no `{}`) into an existing value is accepted as {:?}", T::NAME, text, names[omit], b) },
+                    Ok(Err(_)) => {}
+                    Err(m) => return Outcome::Fail { sig: "in-place-panics", msg: format!("{}: deserialize_in_place panics: {}", T::NAME, m) },
+                }
+                match catches(|| in_place_vec::<T>(&format!("[{}]", text), &other)) {
+                    Ok(Ok(b)) => return Outcome::Fail { sig: "in-place-omission-accepted", msg: format!("{}: Vec::deserialize_in_place of [{}] (no `{}`) into recycled slots is accepted as {:?}", T::NAME, text, names[omit], b) },
+                    Ok(Err(_)) => {}
+                    Err(m) => return Outcome::Fail { sig: "in-place-panics", msg: format!("{}: Vec::deserialize_in_place panics: {}", T::NAME, m) },
+                }
+            }
+        }
+        let mut parts: Vec<String> = names.iter().map(|k| field(k)).collect();
+        parts.insert(d.below(4), unk.to_string());
+        let text = format!("{{{}}}", parts.join(","));
+        ensure!(matches!(catches(|| in_place::<T>(&text, &other)), Ok(Err(_))), "in-place-unknown-field-accepted", "{}: deserialize_in_place accepts (or panics on) the unknown field {}", T::NAME, unk);
+        d.configs += 6 + 12 + 1;
+    }
     // the same through the Value carrier (map access in key order)
     let mut without = obj.clone();
     without.remove(names[d.below(3)]);
@@ -433,8 +488,8 @@ pub fn property() -> Property {
     const R: &str = "at least one non-zero component; components from raw finite bit patterns with -0.0, subnormals, MIN_POSITIVE, MAX over-represented";
     macro_rules! rt {
         ($T:ident, $tag:expr) => {
-            add!(concat!("roundtrip-", $tag, "-f32"), "f32", roundtrip::<f32, $T<f32>>, 1500, 150_000, 80, &[("bit-exact", 900)], R, false);
-            add!(concat!("roundtrip-", $tag, "-f64"), "f64", roundtrip::<f64, $T<f64>>, 1500, 150_000, 80, &[("bit-exact", 900)], R, false);
+            add!(concat!("roundtrip-", $tag, "-f32"), "f32", roundtrip::<f32, $T<f32>>, 1500, 150_000, 112, &[("bit-exact", 900)], R, false);
+            add!(concat!("roundtrip-", $tag, "-f64"), "f64", roundtrip::<f64, $T<f64>>, 1500, 150_000, 112, &[("bit-exact", 900)], R, false);
         };
     }
     rt!(Vector1, "Vector1");
@@ -458,8 +513,8 @@ pub fn property() -> Property {
     rt!(PlanarFov, "PlanarFov");
     macro_rules! rtt {
         ($T64:ty, $T32:ty, $tag:expr) => {
-            add!(concat!("roundtrip-", $tag, "-f32"), "f32", roundtrip::<f32, $T32>, 1500, 150_000, 80, &[("bit-exact", 900)], R, false);
-            add!(concat!("roundtrip-", $tag, "-f64"), "f64", roundtrip::<f64, $T64>, 1500, 150_000, 80, &[("bit-exact", 900)], R, false);
+            add!(concat!("roundtrip-", $tag, "-f32"), "f32", roundtrip::<f32, $T32>, 1500, 150_000, 112, &[("bit-exact", 900)], R, false);
+            add!(concat!("roundtrip-", $tag, "-f64"), "f64", roundtrip::<f64, $T64>, 1500, 150_000, 112, &[("bit-exact", 900)], R, false);
         };
     }
     rtt!(Euler<Rad<f64>>, Euler<Rad<f32>>, "Euler_Rad");
@@ -468,13 +523,13 @@ pub fn property() -> Property {
     rtt!(Decomposed<Vector3<f64>, Basis3<f64>>, Decomposed<Vector3<f32>, Basis3<f32>>, "Decomposed_Basis3");
     rtt!(Decomposed<Vector2<f64>, Basis2<f64>>, Decomposed<Vector2<f32>, Basis2<f32>>, "Decomposed_Basis2");
     add!("roundtrip-integers", "i64,u64,u8,i32", integers, 1000, 50_000, 16, &[], "every generated value", false);
-    const RD: &str = "all 6 field orders, all 3 omissions (both remaining orders) and an unknown field at each of 4 positions are enumerated in every case";
-    add!("decomposed_fields-Quaternion-f64", "f64", decomposed_fields::<f64, Decomposed<Vector3<f64>, Quaternion<f64>>>, 500, 30_000, 80, &[], RD, true);
-    add!("decomposed_fields-Quaternion-f32", "f32", decomposed_fields::<f32, Decomposed<Vector3<f32>, Quaternion<f32>>>, 500, 30_000, 80, &[], RD, true);
-    add!("decomposed_fields-Basis3-f64", "f64", decomposed_fields::<f64, Decomposed<Vector3<f64>, Basis3<f64>>>, 500, 30_000, 80, &[], RD, true);
-    add!("decomposed_fields-Basis2-f32", "f32", decomposed_fields::<f32, Decomposed<Vector2<f32>, Basis2<f32>>>, 500, 30_000, 80, &[], RD, true);
-    add!("decomposed_fields-Basis3-f32", "f32", decomposed_fields::<f32, Decomposed<Vector3<f32>, Basis3<f32>>>, 500, 30_000, 80, &[], RD, true);
-    add!("decomposed_fields-Basis2-f64", "f64", decomposed_fields::<f64, Decomposed<Vector2<f64>, Basis2<f64>>>, 500, 30_000, 80, &[], RD, true);
+    const RD: &str = "all 6 field orders, all 3 omissions (both remaining orders) and an unknown field at each of 4 positions are enumerated in every case, through from_str and through deserialize_in_place (directly and as a recycled Vec slot)";
+    add!("decomposed_fields-Quaternion-f64", "f64", decomposed_fields::<f64, Decomposed<Vector3<f64>, Quaternion<f64>>>, 500, 30_000, 160, &[], RD, true);
+    add!("decomposed_fields-Quaternion-f32", "f32", decomposed_fields::<f32, Decomposed<Vector3<f32>, Quaternion<f32>>>, 500, 30_000, 160, &[], RD, true);
+    add!("decomposed_fields-Basis3-f64", "f64", decomposed_fields::<f64, Decomposed<Vector3<f64>, Basis3<f64>>>, 500, 30_000, 160, &[], RD, true);
+    add!("decomposed_fields-Basis2-f32", "f32", decomposed_fields::<f32, Decomposed<Vector2<f32>, Basis2<f32>>>, 500, 30_000, 160, &[], RD, true);
+    add!("decomposed_fields-Basis3-f32", "f32", decomposed_fields::<f32, Decomposed<Vector3<f32>, Basis3<f32>>>, 500, 30_000, 160, &[], RD, true);
+    add!("decomposed_fields-Basis2-f64", "f64", decomposed_fields::<f64, Decomposed<Vector2<f64>, Basis2<f64>>>, 500, 30_000, 160, &[], RD, true);
     Property {
         id: "C20",
         title: "Serialized values round-trip exactly and keep their field structure",
